@@ -181,6 +181,18 @@ CHECKS.update({
          "both frame buffers, border and paging (and the audio stream where comparable) to depend on (scenario, frame) only."),
    note="Trusted: TLC, a 64-bit FNV digest (collisions ignored), the RAM-bank hook. Two to six scenarios per shard."),
 })
+CHECKS.update({
+ "C15": dict(
+   category="fault_enumeration", design_ref="4 (C15), 7", technique="TLC-enumerated catalogue of malformed file shapes and fault positions executed on the real loaders; TLC termination model of the chunk walkers; TLC judgement of recorded outcomes",
+   text=("Totality over all byte strings is not a model-checking statement. The specification contributes (1) the chunk walker and the VTX string scanner "
+         "as state machines whose number of passes TLC bounds on every abstract input (it exhibits the non-terminating scan when EOF does not stop it), and "
+         "(2) the exhaustive catalogue of malformed shapes per format (5134 shapes: size fields against the real remainder, field values outside their "
+         "domain, truncation at every boundary, gzip wrappers), which TLC writes out as vectors. The harness turns every shape into bytes, runs the real "
+         "loaders under catch_unwind, a 5 s watchdog and a counting allocator, also with an asset that fails at every request index and with mutated and "
+         "random inputs, then emulates 20 frames. LoaderTrace requires outcome in {ok, err}, no panic afterwards and memory <= 8 MiB + 3000 x input."),
+   note=("Enumeration and sampling, not proof: absence of a crashing input is not claimed. Panic sites are classified by source file; D18 (a panic inside the "
+         "third-party LH5 decoder) is an open known finding.")),
+})
 NOT_YET = {}
 
-HOOK_COMMITS = ["71990aa"]
+HOOK_COMMITS = ["71990aa", "ef4a40c", "f28e495"]
